@@ -59,11 +59,11 @@ META = {
                   'forgotten task with a file dependency is not reported up-to-date in the next run, for every order of '
                   'hand-over; C13_ignore_cmd / C13_ignore_run / C13_ignore_persists / C13_ignore -- exactly the named '
                   'tasks and their sub-tasks are marked, the mark survives every history of edits, runs, reset-deps, ignores and '
-                  'forgets of other tasks (no change of the configured checker), and in every later run every processed task that is marked or reaches a marked '
+                  'forgets of other tasks and changes of the configured checker, and in every later run every processed task that is marked or reaches a marked '
                   'task over task_dep edges (declared or implicit) is reported ignored while tasks with such a setup-task '
                   'are not executed; C13_resetdep -- target list, no other record changed, nothing recorded with a '
                   'missing file_dep, otherwise every dependency recorded as the present file, values and result kept and '
-                  'status = up-to-date unless an early exit of get_status fires; counterexample theorems for the two '
+                  'status = up-to-date unless an early exit of get_status fires; counterexample theorems for the three '
                   'pinned defects.  The model is tied to doit on every run by driving the real command line entry point '
                   'in-process on real files (3 backends x 2 checkers): printed target lists, exit codes, per-task '
                   'reports, reset-dep lines and the logical DB after every op are diffed against the model; the monitor '
@@ -74,9 +74,9 @@ META = {
                   'out of fuel (C13_forget_fuel_suffices).  C13_ignore_run '
                   'assumes a duplicate-free hand-over order in which no task is processed before a dependency it needs '
                   'has a report (`bad = false`; C01 is the theorem about the dispatcher, the driver evaluates the flag on '
-                  'every observed run).  C13_ignore_persists excludes reset-dep and checker changes from the histories: '
-                  'the code drops the mark there (open finding resetdep-checker-change-drops-ignore, '
-                  'findings/pending/C13-resetdep-checker-change-drops-ignore.md); the monitor keeps the full statement.  '
+                  'every observed run).  C13_ignore_persists holds from any DB state for every history that does not forget '
+                  'the task (reset-dep and checker changes included, since the repair 017f29e of finding F-C13c: '
+                  'findings/resolved/C13-resetdep-checker-change-drops-ignore.md; C13_pinned_resetdep_counterexample).  '
                   '"Executes on the next run" is read for tasks whose decision consults saved state (file_dep), DESIGN '
                   '§5.  The monitor is a Python predicate (set/equality tests on dumps and reports) over specification '
                   'sets and the reset-dep record predicate evaluated by the Lean driver.',
@@ -99,31 +99,6 @@ META = {
                 'backends are exercised, not modelled here (C07)'],
     'models': ['M2', 'M8'],
 }
-
-def sig_resetdep_checker_change(w):
-    """an ignore mark is gone although the task was never forgotten, and between the `ignore` and the failing run
-    there is a `reset-dep` acting on a marked task issued after the configured checker changed"""
-    f = w.get('failed') or {}
-    if f.get('clause') not in ('ignore-skips', 'ignore-skips-setup'):
-        return False
-    case = w['case']
-    ops = case['ops']
-    marks = set(f.get('marks') or [])
-    k = f.get('op', len(ops))
-    tasks = case['tasks']
-    changed = False
-    for op in ops[:k]:
-        if op[0] == 'checker' and op[1] != case['checker']:
-            changed = True
-        elif op[0] == 'reset' and changed:
-            sel = set(op[1])
-            target = set(range(len(tasks))) if not op[1] else sel | set(j for j, t in enumerate(tasks) if t.get('sub_of') in sel)
-            if target & marks:
-                return True
-    return False
-
-
-SIGNATURES = {'resetdep-checker-change-drops-ignore': sig_resetdep_checker_change}
 
 EMPTY = {'values': None, 'result': None, 'checker': None, 'deps': None, 'fstate': [], 'ign': False}
 EXECUTED = ('ok', 'fail', 'save-missing')
